@@ -43,8 +43,22 @@ Inductive top :=
 | TUpdateRef (slot : nat) (v : Z)      (* table.Update(rowRef, column, v) *)
 | TUpdateNum (i : nat) (v : Z)         (* table.Update(i, newRow): replaces the row *)
 | TRemoveIf (m : Z)                    (* table.Remove(filter) *)
+| TSelectIf (m : Z) (slot : nat)       (* table.Select(filter): rows with value mod m = 0 *)
+| TSelOfSel (ssel : nat) (m : Z) (slot : nat)   (* Selection(sel, filter): a selection of a selection (copies the keeper) *)
+| TSelSort (ssel : nat)                (* sel.Sort(column) *)
+| TSelSum (ssel : nat)                 (* iterate the selection reading every row *)
+| TSelReverse (ssel : nat)
+| TSelRemove (ssel : nat) (j n : nat)  (* sel.Remove(index, count) *)
+| TSelCount (ssel : nat)
+| TRemoveSel (ssel : nat)              (* table.Remove(sel.GetBegin(), sel.GetEnd()) *)
 | TClear
 | TCount.
+
+Definition val_of (s : tstate) (id : nat) : Z := match find_id id (rows s) with Some v => v | None => 0 end.
+Fixpoint insert_by (f : nat -> Z) (x : nat) (l : list nat) : list nat :=
+  match l with [] => [x] | y :: t => if f x <=? f y then x :: l else y :: insert_by f x t end.
+Definition sort_by (f : nat -> Z) (l : list nat) : list nat := fold_right (insert_by f) [] l.
+Definition sel_handle (h : thandle) (ids : list nat) : thandle := mkTH (ttid h) (tsnap h) ids true.
 
 Definition tstep (s : tstate) (o : top) : tstate * tout :=
   match o with
@@ -128,6 +142,62 @@ Definition tstep (s : tstate) (o : top) : tstate * tout :=
     if m =? 0 then (s, TUndef) else
     let l := filter (fun e => negb (snd e mod m =? 0)) (rows s) in
     (tupd s (S (cver s)) (S (rver s)) (nextid s) l, TAcc (Some (Z.of_nat (tcount s - length l))))   (* pvFilterRaws always bumps *)
+  | TSelectIf m slot =>
+    if m =? 0 then (s, TUndef) else
+    let ids := map fst (filter (fun e => snd e mod m =? 0) (rows s)) in
+    (tset s slot (mkTH (Some 0%nat) (rver s) ids true), TAcc (Some (Z.of_nat (length ids))))
+  | TSelOfSel ssel m slot =>
+    let h := ths s ssel in
+    if (m =? 0) || negb (tissel h) then (s, TUndef) else
+    match ttid h, tids h with
+    | Some O, [] => (tset s slot (sel_handle h []), TAcc (Some 0))        (* nothing is read *)
+    | Some O, _ =>
+      if tself s h then
+        let ids := filter (fun id => val_of s id mod m =? 0) (tids h) in
+        (tset s slot (sel_handle h ids), TAcc (Some (Z.of_nat (length ids))))
+      else (s, TRej)                                                   (* the filter reads through a checked row reference *)
+    | _, _ => (s, TUndef)
+    end
+  | TSelSort ssel =>
+    let h := ths s ssel in
+    if negb (tissel h) then (s, TUndef) else
+    match ttid h with
+    | Some O => if tself s h then (tset s ssel (sel_handle h (sort_by (val_of s) (tids h))), TAcc None) else (s, TRej)
+    | _ => (s, TUndef)
+    end
+  | TSelSum ssel =>
+    let h := ths s ssel in
+    if negb (tissel h) then (s, TUndef) else
+    match ttid h, tids h with
+    | Some O, [] => (s, TAcc (Some 0))
+    | Some O, _ => if tself s h then (s, TAcc (Some (fold_right (fun id a => val_of s id + a) 0 (tids h)))) else (s, TRej)
+    | _, _ => (s, TUndef)
+    end
+  | TSelReverse ssel =>
+    let h := ths s ssel in
+    if tissel h then (tset s ssel (sel_handle h (rev (tids h))), TAcc None) else (s, TUndef)
+  | TSelRemove ssel j n =>
+    let h := ths s ssel in
+    if tissel h then
+      if Nat.leb j (length (tids h)) && Nat.leb n (length (tids h) - j) then
+        (tset s ssel (sel_handle h (firstn j (tids h) ++ skipn (j + n) (tids h))), TAcc None)
+      else (s, TRej)
+    else (s, TUndef)
+  | TSelCount ssel =>
+    let h := ths s ssel in
+    if tissel h then (s, TAcc (Some (Z.of_nat (length (tids h))))) else (s, TUndef)
+  | TRemoveSel ssel =>
+    let h := ths s ssel in
+    if negb (tissel h) then (s, TUndef) else
+    match ttid h, tids h with
+    | Some O, [] => (tupd s (S (cver s)) (S (rver s)) (nextid s) (rows s), TAcc (Some 0))     (* pvFilterRaws always bumps *)
+    | Some O, ids =>
+      if tself s h then
+        let l := filter (fun e => negb (existsb (Nat.eqb (fst e)) ids)) (rows s) in
+        (tupd s (S (cver s)) (S (rver s)) (nextid s) l, TAcc (Some (Z.of_nat (tcount s - length l))))
+      else (s, TRej)                                                   (* every row of the range is checked *)
+    | _, _ => (s, TUndef)
+    end
   | TClear => (tupd s (S (cver s)) (S (rver s)) (nextid s) [], TAcc None)
   | TCount => (s, TAcc (Some (Z.of_nat (tcount s))))
   end.
